@@ -65,10 +65,14 @@ FillSeqs(n) == IF n = 0 THEN {<<>>}
 Init == /\ brs \in Seqs(MaxBr) \cup FillSeqs(FillBr) /\ N \in 0..MaxN /\ bs \in BufSizes
         /\ drv \in {"run", "fill", "fillreq", "zip"} /\ rq \in {0, 1}
         /\ (drv = "run" => rq = 0 /\ brs \in Seqs(MaxBr))
-        /\ (drv \in {"fill", "zip"} => /\ rq = 0 /\ bs = 1 /\ brs # <<>>
-                                       /\ \A j \in 1..Len(brs) : IsFC(brs[j]) /\ brs[j].stop = None)
-        /\ (drv = "zip" => \A j \in 1..Len(brs) : brs[j].end = brs[1].end /\ brs[j].stop = None)
-        /\ (drv = "fillreq" => bs = 1 /\ brs # <<>> /\ \A j \in 1..Len(brs) : brs[j].end = "fr")
+        /\ (drv = "fill" => /\ rq = 0 /\ bs = 1 /\ brs # <<>>
+                            /\ \A j \in 1..Len(brs) : IsFC(brs[j]) /\ brs[j].stop = None)
+        \* Zip: fill/compute branches (compute at the end) or fill/request branches (request like fillreq)
+        /\ (drv = "zip" => /\ bs = 1 /\ brs # <<>>
+                           /\ \A j \in 1..Len(brs) : brs[j].end = brs[1].end /\ brs[j].stop = None
+                           /\ (IsFC(brs[1]) /\ rq = 0) \/ brs[1].end = "fr")
+        /\ (drv = "fillreq" => /\ bs = 1 /\ brs # <<>>
+                               /\ \A j \in 1..Len(brs) : brs[j].end = "fr" /\ brs[j].stop = None)
         /\ LET r == AllocAll(EmptyHeap, Flow(N)) IN M = r.M /\ src = r.vs
         /\ pos = 0 /\ orig = <<>> /\ active = [j \in 1..Len(brs) |-> j] /\ ind = 1
         /\ bst = InitBst(brs) /\ out = <<>>
@@ -161,16 +165,19 @@ BranchFR ==
      IN /\ M' = f.M
         /\ IF drv = "run"
            THEN /\ out' = out \o Entries(f.M.h, b, f.s.stored)
-                /\ bst' = [bst EXCEPT ![b] = [f.s EXCEPT !.stored = <<>>]]
-           ELSE /\ bst' = [bst EXCEPT ![b] = f.s] /\ UNCHANGED out
-  /\ ind' = ind + 1 /\ UNCHANGED <<pos, orig, active, phase>>
+                /\ bst' = [bst EXCEPT ![b] = [f.s EXCEPT !.stored = <<>>, !.done = f.stopped]]
+                \* a fill/request branch that raised LenaStopFill requests once more and is removed
+                /\ IF f.stopped THEN active' = RemoveAt(active, ind) /\ UNCHANGED ind
+                   ELSE ind' = ind + 1 /\ UNCHANGED active
+           ELSE /\ bst' = [bst EXCEPT ![b] = f.s] /\ UNCHANGED <<out, active>> /\ ind' = ind + 1
+  /\ UNCHANGED <<pos, orig, phase>>
 
 \* request() of every branch in order
 RECURSIVE RequestAll(_, _, _)
 RequestAll(h, st, j) == IF j > Len(st) THEN <<>> ELSE Entries(h, j, st[j].stored) \o RequestAll(h, st, j + 1)
 BlockDone ==
   /\ phase = "branches" /\ ind > Len(active) /\ Fixed
-  /\ IF drv = "fillreq" /\ rq = 1
+  /\ IF drv \in {"fillreq", "zip"} /\ rq = 1
      THEN /\ out' = out \o RequestAll(M.h, bst, 1)
           /\ bst' = [j \in 1..Len(bst) |-> [bst[j] EXCEPT !.stored = <<>>]]
      ELSE UNCHANGED <<out, bst>>
@@ -184,7 +191,7 @@ FinalPass(Mm, as, st, acc) ==
   ELSE LET b == Head(as) IN
     IF IsFC(brs[b]) THEN LET c == ComputeOf(Mm, brs[b], st[b]) IN
                          FinalPass(c.M, Tail(as), st, acc \o Entries(c.M.h, b, c.vs))
-    ELSE IF brs[b].end = "fr" /\ drv = "fillreq"
+    ELSE IF brs[b].end = "fr" /\ drv \in {"fillreq", "zip"}
          THEN FinalPass(Mm, Tail(as), st, acc \o Entries(Mm.h, b, st[b].stored))
     ELSE IF brs[b].end = "src" /\ pos = 0
          THEN LET r == AllocAll(Mm, Alone(brs[b], <<>>, None)) IN
